@@ -9,14 +9,15 @@ pub mod t5 {
    ascent! {
       #![generate_run_timeout]
       pub struct Prog;
-      relation r0(i64, i64);
+      relation r0(i64, i64, i64);
       relation r1(i64, i64);
-      relation r2(i64, i64);
-      r2(v0, v1) <-- r1(v0, v1), r0(v0, v0), r1(v1, v2);
-      r2(v0, v1) <-- let v9 = 1, r1(v0, v1), r0(v1, v9);
-      r2(v0, ((*v0) + 1)) <-- r2(v0, 1), r2(v0, v1), r2(v0, v1) if ((*v1) <= 3) let v2 = ((*v0) + 0), if ((*v0) < 6);
-      r1(0, 1);
-      r2((v2 + 1), v1) <-- r1(v0, v1), let v2 = (*v1), if (v2 < 6);
+      relation r2(i64, i64, i64);
+      relation r3(i64, i64);
+      r3(v0, v1) <-- r3(v0, v1), r3(((*v0) + 1), v2);
+      r2(v0, v1, v9) <-- let v9 = 2, r3(v0, v1), r3(v1, v9);
+      r3(v0, 2) <-- r3(v0, 3);
+      r3(0, v3) <-- r1(v0, 2) if ((*v0) != 2) let v1 = ((*v0) + 1), r0(v2, v1, v3), let v4 = 3;
+      r3(2, 0);
    }
    pub struct Inst { p: Prog, pool: Option<ascent::rayon::ThreadPool> }
    pub fn make(pool: Option<usize>) -> Box<dyn Driver> {
@@ -27,9 +28,10 @@ pub mod t5 {
    impl Driver for Inst {
       fn load(&mut self, rel: usize, rows: &[Sexp], append: bool) -> Option<()> {
          match rel {
-         0 => { let v: Vec<(i64,i64,)> = parse_rows(rows)?; if append { self.p.r0.extend(v) } else { self.p.r0 = v } },
+         0 => { let v: Vec<(i64,i64,i64,)> = parse_rows(rows)?; if append { self.p.r0.extend(v) } else { self.p.r0 = v } },
          1 => { let v: Vec<(i64,i64,)> = parse_rows(rows)?; if append { self.p.r1.extend(v) } else { self.p.r1 = v } },
-         2 => { let v: Vec<(i64,i64,)> = parse_rows(rows)?; if append { self.p.r2.extend(v) } else { self.p.r2 = v } },
+         2 => { let v: Vec<(i64,i64,i64,)> = parse_rows(rows)?; if append { self.p.r2.extend(v) } else { self.p.r2 = v } },
+         3 => { let v: Vec<(i64,i64,)> = parse_rows(rows)?; if append { self.p.r3.extend(v) } else { self.p.r3 = v } },
             _ => return None,
          }
          Some(())
@@ -37,7 +39,7 @@ pub mod t5 {
       fn run(&mut self) { match &self.pool { Some(pl) => { let p = &mut self.p; pl.install(|| p.run()) }, None => self.p.run() } }
       fn run_here(&mut self) { self.p.run() }
       fn run_timeout(&mut self, k: usize) -> Option<bool> { ascent::internal::verif::arm_deadline(k); let r = self.p.run_timeout(std::time::Duration::from_secs(1)); ascent::internal::verif::disarm(); Some(r) }
-      fn dump(&self) -> String { vec![dump_rel(0, self.p.r0.iter().map(Row::render).collect()), dump_rel(1, self.p.r1.iter().map(Row::render).collect()), dump_rel(2, self.p.r2.iter().map(Row::render).collect())].join(" | ") }
+      fn dump(&self) -> String { vec![dump_rel(0, self.p.r0.iter().map(Row::render).collect()), dump_rel(1, self.p.r1.iter().map(Row::render).collect()), dump_rel(2, self.p.r2.iter().map(Row::render).collect()), dump_rel(3, self.p.r3.iter().map(Row::render).collect())].join(" | ") }
       fn iters(&self) -> String { format!("iters {}", self.p.scc_iters.iter().map(|x| x.to_string()).collect::<Vec<_>>().join(" ")) }
    }
 }
@@ -51,22 +53,18 @@ pub mod tl3 {
    ascent! {
       #![generate_run_timeout]
       pub struct Prog;
-      relation r0(i64, i64);
-      relation r1(i64, i64, i64);
-      relation r2(i64, i64);
-      lattice r3(i64, Set<i64>);
-      lattice r4(i64, Set<i64>);
-      r3(v0, Set::singleton((*v1))) <-- r0(v0, v1);
-      r3(v1, v2) <-- r3(v0, v2), r0(v0, v1);
-      r3(v0, Set::singleton((*v0))) <-- r2(v0, v0) if ((*v0) < 3);
-      r3(v2, v1) <-- r3(v0, v1) if ((*v0) < 4), r0(v2, v3);
-      r4(v0, Set::singleton((*v1))) <-- r2(v0, v1);
-      r4(v1, v2) <-- r4(v0, v2), r2(v0, v1);
-      r4(v0, Set::singleton((*v1))) <-- r0(v0, v1);
-      r4(v2, Set::singleton(2)) <-- r4(v0, v1), r2(v2, v3);
-      r0(2, v2) <-- r4(v0, v1), r2(v2, v3);
-      r4(v0, v1) <-- r4(v0, v1);
-      r4(v0, v1) <-- r3(v0, v1);
+      relation r0(i64);
+      relation r1(i64);
+      relation r2(i64);
+      lattice r3(i64, i64, Dual<i64>);
+      lattice r4(i64, i64, i64);
+      r3(v0, ((*v0) + 1), Dual((*v0))) <-- r1(v0), if ((*v0) < 6);
+      r3(v3, v1, Dual(2)) <-- r3(v0, v1, v2), r2(v3);
+      r4(v0, v0, (*v0)) <-- r0(v0) if ((*v0) < 3);
+      r4(0, v0, std::cmp::min(((*v1) + 0), 6)) <-- r4(v0, v0, v1) if ((*v0) < 5), r0(v0);
+      r4(v0, v0, std::cmp::min(((*v3) + 1), 6)) <-- r4(v0, v0, v1) if ((*v0) < 2), r4(v2, v2, v3);
+      r2(v0) <-- r2(v0), r3(v0, v0, v1) if ((*v0) < 2);
+      r4(v0, v0, 4) <-- r3(v0, v0, v1);
    }
    pub struct Inst { p: Prog, pool: Option<ascent::rayon::ThreadPool> }
    pub fn make(pool: Option<usize>) -> Box<dyn Driver> {
@@ -77,11 +75,11 @@ pub mod tl3 {
    impl Driver for Inst {
       fn load(&mut self, rel: usize, rows: &[Sexp], append: bool) -> Option<()> {
          match rel {
-         0 => { let v: Vec<(i64,i64,)> = parse_rows(rows)?; if append { self.p.r0.extend(v) } else { self.p.r0 = v } },
-         1 => { let v: Vec<(i64,i64,i64,)> = parse_rows(rows)?; if append { self.p.r1.extend(v) } else { self.p.r1 = v } },
-         2 => { let v: Vec<(i64,i64,)> = parse_rows(rows)?; if append { self.p.r2.extend(v) } else { self.p.r2 = v } },
-         3 => { let v: Vec<(i64,Set<i64>,)> = parse_rows(rows)?; if append { self.p.r3.extend(v) } else { self.p.r3 = v } },
-         4 => { let v: Vec<(i64,Set<i64>,)> = parse_rows(rows)?; if append { self.p.r4.extend(v) } else { self.p.r4 = v } },
+         0 => { let v: Vec<(i64,)> = parse_rows(rows)?; if append { self.p.r0.extend(v) } else { self.p.r0 = v } },
+         1 => { let v: Vec<(i64,)> = parse_rows(rows)?; if append { self.p.r1.extend(v) } else { self.p.r1 = v } },
+         2 => { let v: Vec<(i64,)> = parse_rows(rows)?; if append { self.p.r2.extend(v) } else { self.p.r2 = v } },
+         3 => { let v: Vec<(i64,i64,Dual<i64>,)> = parse_rows(rows)?; if append { self.p.r3.extend(v) } else { self.p.r3 = v } },
+         4 => { let v: Vec<(i64,i64,i64,)> = parse_rows(rows)?; if append { self.p.r4.extend(v) } else { self.p.r4 = v } },
             _ => return None,
          }
          Some(())
